@@ -48,6 +48,9 @@ class Infra(Exception):
     """The machinery itself failed (not a verdict about the property)."""
 
 
+HARNESS_DEATHS = []
+
+
 def sh(cmd, cwd=None, timeout=3600, env=None):
     e = dict(os.environ)
     e.setdefault("CARGO_NET_OFFLINE", "true")
@@ -55,7 +58,15 @@ def sh(cmd, cwd=None, timeout=3600, env=None):
         e.update(env)
     p = subprocess.run(cmd, cwd=cwd, shell=isinstance(cmd, str), stdout=subprocess.PIPE,
                        stderr=subprocess.STDOUT, timeout=timeout, env=e)
-    return p.returncode, p.stdout.decode("utf-8", "replace")
+    out = p.stdout.decode("utf-8", "replace")
+    # a harness binary that dies (signal, abort, panic outside its guarded calls) means the code
+    # under test took the process down: remembered, so that the driver reports it as a violation
+    # (the correspondence no longer runs) rather than as an infrastructure error
+    if not isinstance(cmd, str) and cmd and str(cmd[0]).startswith(TARGET) and \
+            (p.returncode < 0 or p.returncode in (101, 134, 139)):
+        HARNESS_DEATHS.append({"command": [str(c) for c in cmd][:12], "exit_status": p.returncode,
+                               "output_tail": out[-3000:]})
+    return p.returncode, out
 
 
 def seed():
